@@ -847,6 +847,21 @@ class Ctx:
             r = s.check()
             m = s.model() if r == z3.sat else None
             self.stats.fresh_solver_queries += 1
+        if r == z3.unknown and full > self.ex.incremental_timeout_ms:
+            # the incremental core again, now with the full budget: it decides some queries in about a second that the
+            # other pipelines give up on, and its first (short) attempt can time out merely because the machine is busy
+            s4 = self.solver
+            s4.push()
+            try:
+                s4.set("timeout", full)
+                s4.add(*constraints)
+                r4 = s4.check()
+                if r4 != z3.unknown:
+                    r = r4
+                    m = s4.model() if r4 == z3.sat else None
+                    s = s4
+            finally:
+                s4.pop()
         if r == z3.unknown:
             # last resort: the dedicated nonlinear-real tactic (only applicable to pure real-arithmetic queries)
             try:
